@@ -26,7 +26,10 @@ def replay(rec, ctx):
     rates = (ctx or rec)["rates"]
     calls = EC.Calls()
     ad = EC.provider(rates, calls)
-    pl = EC.plasma(rec)
+    from scipy import constants as K
+    vb = math.sqrt(2 * ENERGY * K.e / K.atomic_mass)
+    pl = EC.plasma(rec, vel={s: [c * vb / 10.0 for c in v] for s, v in rec.get("vel", {}).items()})
+    efac = {s: f[0] / f[1] for s, f in rec.get("efac", {}).items()}
     m = rec["model"]
     nb = rec["nb"] * EC.NU
 
@@ -50,7 +53,7 @@ def replay(rec, ctx):
     viol = []
 
     def bad(what, detail):
-        viol.append({"sig": f"{m}:{what}" + ("" if rec.get("prior", "none") == "none" else f"@after-other-{rec['prior']}"), "detail": f"{detail} | dens={rec['dens']} temp={rec['temp']} nb={rec['nb']}"})
+        viol.append({"sig": f"{m}:{what}" + ("" if rec.get("prior", "none") == "none" else f"@after-other-{rec['prior']}"), "detail": f"{detail} | dens={rec['dens']} temp={rec['temp']} nb={rec['nb']} flow={rec.get('flow')}"})
     ev = lambda: model.emission(Point3D(0, 0, 0.5), Point3D(0.1, 0.2, 0.3), Vector3D(0, 0, 1), Vector3D(1, 0, 0), Spectrum(c03.LO, c03.HI, c03.BINS))   # noqa: E731
     EC.prior_phase(rec, rates, model, ev, calls, ad, pl, beam=beam)
     sp = Spectrum(c03.LO, c03.HI, c03.BINS)
@@ -78,7 +81,7 @@ def replay(rec, ctx):
         z2n, zn = rec["zeff"]
         for tag, args in [(x[1], x[2]) for x in calls if x[0] == "eval"]:
             if tag.startswith("bcx"):
-                exp = (ENERGY, float(rec["temp"]["c6"]), rec["nion"] * EC.NU, z2n / zn, 5.0)
+                exp = (ENERGY * efac.get("c6", 1.0), float(rec["temp"]["c6"]), rec["nion"] * EC.NU, z2n / zn, 5.0)
                 if not core.close(list(args), list(exp), rtol=1e-9):
                     bad("cx-coefficient-evaluated-at-wrong-arguments", f"{tag}{args} vs (E_int, T_rec, n_ion, Zeff, |B|) = {exp}")
                     break
@@ -86,7 +89,7 @@ def replay(rec, ctx):
                 s = tag.split(":")[1]
                 zi = rec["species"][s][1]
                 exp_n = z2n * EC.NU / zi if zi else math.inf
-                exp = (ENERGY, exp_n, float(rec["temp"][s]))
+                exp = (ENERGY * efac.get(s, 1.0), exp_n, float(rec["temp"][s]))
                 ok = core.close(args[0], exp[0], rtol=1e-9) and core.close(args[2], exp[2], rtol=1e-9) and \
                     (args[1] == exp[1] if math.isinf(exp_n) else core.close(args[1], exp[1], rtol=1e-9))
                 if not ok and rec["dens"][s] > 0:
